@@ -1,10 +1,10 @@
 #!/usr/bin/env python3
-"""register_fix.py <property> <what failed (one line)> [<needs>]: records HEAD of /repo as a fix: 'fixed:' line in known_findings.txt and a seeded/revert-<hash> entry"""
+"""register_fix.py <property> <what failed (one line)> [<needs>] (env FIX_COMMIT=<hash> for a commit other than HEAD): records a /repo commit as a fix: 'fixed:' line in known_findings.txt and a seeded/revert-<hash> entry"""
 import sys, subprocess, json, os
 prop, text = sys.argv[1], sys.argv[2]
 needs = sys.argv[3] if len(sys.argv) > 3 else "see DESIGN.md section 7"
-h = subprocess.run(['git','-C','/repo','rev-parse','--short','HEAD'],capture_output=True,text=True).stdout.strip()
-subj = subprocess.run(['git','-C','/repo','log','-1','--format=%s'],capture_output=True,text=True).stdout.strip()
+h = subprocess.run(['git','-C','/repo','rev-parse','--short',os.environ.get('FIX_COMMIT','HEAD')],capture_output=True,text=True).stdout.strip()
+subj = subprocess.run(['git','-C','/repo','log','-1','--format=%s',h],capture_output=True,text=True).stdout.strip()
 assert subj.startswith('fix:'), subj
 p='/verif/known_findings.txt'; s=open(p).read()
 line=f"fixed: property={prop} {h} {text}\n"
@@ -13,6 +13,14 @@ s=s[:end]+line+s[end:]
 open(p,'w').write(s)
 d=f'/verif/seeded/revert-{h}'; os.makedirs(d,exist_ok=True)
 diff=subprocess.run(['git','-C','/repo','diff',h,h+'~1'],capture_output=True,text=True).stdout
+if subprocess.run(['git','-C','/repo','apply','--check','-'],input=diff,text=True,capture_output=True).returncode!=0:
+    # later commits touch the same lines: let git revert do the three-way merge in a scratch worktree
+    wt='/tmp/wt_revert_'+h
+    subprocess.run(['git','-C','/repo','worktree','add','-q',wt,'HEAD'],check=True)
+    r=subprocess.run(['git','-C',wt,'revert','--no-commit',h],capture_output=True,text=True)
+    diff=subprocess.run(['git','-C',wt,'diff','HEAD'],capture_output=True,text=True).stdout
+    subprocess.run(['git','-C','/repo','worktree','remove','--force',wt],check=True)
+    assert r.returncode==0 and diff, ('revert needs a manual merge', r.stderr)
 open(d+'/patch.diff','w').write(diff)
 json.dump({"id":f"revert-{h}","property":prop,"origin":f"revert of the fix commit {h} ({subj[5:].strip()})","what":"re-introduces: "+text,"needs":needs,"ran":["the existing suite passes with and without the fix (236/0)"]},open(d+'/meta.json','w'),indent=1)
 print("registered",h)
